@@ -168,7 +168,7 @@ pub struct IssuedCookie {
     pub header: String,
 }
 
-#[derive(Default)]
+#[derive(Default, Clone)]
 pub struct World {
     /// model of the store, keyed by symbolic id
     pub store: BTreeMap<usize, Map>,
@@ -192,6 +192,7 @@ impl World {
     }
 }
 
+#[derive(Clone)]
 pub struct ReqModel {
     pub inv: bool,
     pub client: Map,
@@ -605,6 +606,14 @@ pub fn parse_plain(plain: &str) -> Result<(String, Map), String> {
 }
 
 pub async fn load_real(store: &SessionStore, real: &str) -> Result<Option<Map>, String> {
+    // (an inspection by the harness: a fault-injecting store must not count or fail it)
+    crate::c12_chaos::FAULTS_PAUSED.with(|p| p.set(true));
+    let r = load_real_(store, real).await;
+    crate::c12_chaos::FAULTS_PAUSED.with(|p| p.set(false));
+    r
+}
+
+async fn load_real_(store: &SessionStore, real: &str) -> Result<Option<Map>, String> {
     store
         .load(&sid(real))
         .await
